@@ -18,17 +18,18 @@ LEVEL_TEXT = ("Several hundred to a thousand (quick) and five to fifteen thousan
               "executions each, scripted retries, server errors, connection failures, client timeouts and late answers: per registered "
               "pair and page epoch #callback + #errback == 1, all registrations and result() agree on the same outcome object, a late "
               "registration fires exactly once immediately, and an outcome is present once every message sent for the epoch was "
-              "answered/failed or the timeout elapsed. Held-on-observed schedules; the mechanisms by which the unchanged tree completes "
-              "a request more than once are reported as known findings by narrow classifiers.")
+              "answered/failed or the timeout elapsed, and a page fetch is completed by an answer to one of its own messages. "
+              "Held-on-observed schedules. Multiple completions are classified from the observable pattern by narrow classifiers "
+              "(four of the mechanisms found were repaired in the repository by the once-guard of commit 8244c26; two remain known findings).")
 LEVEL_NOTE = ("Trusted base: sim/world.py (one thread runs at a time, switches only at synchronisation points), sim/node.py, spec/frames.py, "
               "sim/s1_req.py. Which internal path produced a completion is not observable; multiple completions are classified from the "
               "observable pattern (kinds and identity of the outcome objects, messages sent and answered).")
 QUICK_WORKERS = 4
 WORKERS = 14
 
-KNOWN_SLUGS = ('double-completion-after-speculative-executions', 'completion-after-timeout-by-late-response', 'double-timeout-error',
-               'earlier-page-execution-completes-later-page-fetch', 'timeout-error-after-completion',
-               'response-dropped-after-another-requests-timeout')
+KNOWN_SLUGS = ('earlier-page-execution-completes-later-page-fetch', 'response-dropped-after-another-requests-timeout')
+FIXED_SLUGS = ('double-completion-after-speculative-executions', 'completion-after-timeout-by-late-response', 'double-timeout-error',
+               'timeout-error-after-completion')          # repaired by the once-guard (repository commit 8244c26): ordinary violations now
 
 
 def _is_oto(ev):
@@ -88,6 +89,10 @@ def classify_multi(outs, own, stale_l, spec_on):
         if slug not in slugs:
             slugs.append(slug)
     return slugs
+
+
+def echo_id(row):
+    return row['uid'] if isinstance(row, dict) else row[0]
 
 
 def _short(ev):
@@ -343,7 +348,7 @@ def run_history(seed, knobs=None):
             if not progressed and not held(('hold', 'hold-error')):
                 break
         settle0()
-        t_end = max([m.epoch_start[0] + T for m in mons.values()] + [world.now]) + R.EPS
+        t_end = max([m.epoch_start[-1] + T for m in mons.values()] + [world.now]) + R.EPS
         world.advance_to(t_end)
         settle0()
         late = held(('late', 'hold', 'hold-error'))
@@ -372,13 +377,13 @@ def run_history(seed, knobs=None):
                 hi = mon.epoch_start_ev[e + 1] if e + 1 < len(mon.epoch_start_ev) else len(env.net.events) + 1
                 stale_l = [a for a in plan.arrivals if a['uid'] == mon.uid and a['epoch'] < e and a['answered'] is not None and lo <= a['answered_ev'] < hi]
                 stale = len(stale_l)
-                if e == 0:
+                if e == mon.epoch:
                     count('timeout_elapsed_checks')
                 if len(outs) == 0:
-                    if e == 0:
-                        # the timeout of the first page has elapsed (virtual time is past start + T + eps, all due timers ran)
-                        viol.append(('no-outcome-after-timeout-elapsed', 'uid %d: no callback/errback although the %.1f s timeout elapsed %.2f s ago' % (
-                            mon.uid, T, world.now - mon.epoch_start[0] - T), mon))
+                    if e == mon.epoch:
+                        # the timeout of this (the last) page fetch has elapsed: virtual time is past its start + T + eps and all due timers ran
+                        viol.append(('no-outcome-after-timeout-elapsed', 'uid %d page fetch %d: no callback/errback although the %.1f s timeout elapsed %.2f s ago' % (
+                            mon.uid, e + 1, T, world.now - mon.epoch_start[e] - T), mon))
                     for w in mon.watches[1:]:
                         if w.in_epoch(e):
                             viol.append(('callback-invoked-for-some-registrations-only', 'uid %d epoch %d: registration %s saw %s, the first registration nothing' % (
@@ -394,6 +399,16 @@ def run_history(seed, knobs=None):
                 # exactly one outcome for the first registration: everybody must agree on it
                 count('epochs_with_single_completion')
                 o = outs[0]
+                if mon.info['kind'] == 'paged' and o[0] == 'cb' and o[3]:
+                    # the rows echo the page they belong to: the outcome of a page fetch must answer a message sent for THIS page fetch
+                    count('page_outcomes_attributed')
+                    got_pages = set((echo_id(r) % 1000) // 10 for r in o[3])
+                    asked = set(a['page'] for a in arr if a['op'] != 'PREPARE')
+                    if not (got_pages <= asked):
+                        slug = 'earlier-page-execution-completes-later-page-fetch' if stale_l else 'page-fetch-completed-with-rows-of-another-page'
+                        count('seen:' + slug)
+                        viol.append((slug, 'uid %d epoch %d: the page fetch asked for page(s) %s but completed with rows of page %s: %s (answers to messages of earlier epochs during this one: %d)' % (
+                            mon.uid, e, sorted(asked), sorted(got_pages), _short(o), stale), mon))
                 for w in mon.watches[1:]:
                     if w.epoch > e:
                         continue
@@ -456,7 +471,6 @@ def run(ctx):
     ctx.rule = ("a case is one seeded history (1-4 nodes, 1-3 requests simple/bound/paged, 0-2 speculative executions, seeded retry decisions, "
                 "per-message node behaviour rows/void/hold/late/silent/error/unprepared/close/reset, registration points, schedule); distinct by "
                 "event-order signature of the world trace; non-trivial = at least one message was answered")
-    ctx.assume("the timeout clause of bounded completion is evaluated for the first page only: whether later page fetches have a timeout at all is C15's statement")
     ctx.assume("callback invocations are attributed to the page epoch current when they run; in 30 % of the page transitions answers of the finished epoch "
                "are left outstanding on purpose (an answer crossing into a later epoch is classified by the messages answered during that epoch)")
     ctx.assume("void results are not served for paged statements; UNPREPARED is served to EXECUTE only")
